@@ -27,7 +27,7 @@ def dtOKb (ext : Ext) (tok : Str) : Bool :=
   (match ext.parseDt (dtText tok) with | .ok t => t == tok | _ => false)
 
 def valOKb (ext : Ext) (unit : Str) (pos : Nat) (v : Val) : Bool :=
-  if unit = uText then (match v with | .text s => !(pos == 0 && s.isEmpty) | _ => false)
+  if unit = uText then (match v with | .text s => !(pos == 0 && s.isEmpty) && s.getLast? != some '\x00' | _ => false)
   else if unit = uOnoff then (match v with | .bool _ => true | _ => false)
   else if unit = uDatetime then (match v with | .dt t => t == NaT || dtOKb ext t | _ => false)
   else (match v with | .num t => t == NaN || numOKb ext t | .int i => intOKb ext i | _ => false)
@@ -41,8 +41,8 @@ def dtNaiveb (c : Column) : Bool :=
   c.values.all (fun v => match v with | .dt tok => (tzOf tok).isEmpty | _ => true)
 
 def wfCheck (ext : Ext) (sep : Char) (naRep : Str) (t : TableVal) : Bool :=
-  naRepOKb naRep && sep != '\n' &&
-  (tableCells naRep t).all (fun row => row.all (fun x => !x.contains sep && !x.contains '\n')) &&
+  naRepOKb naRep && sep != '\n' && sep != '\r' &&
+  (tableCells naRep t).all (fun row => row.all (fun x => !x.contains sep && !x.contains '\n' && !x.contains '\r')) &&
   leading '*' (header t) == 2 &&
   t.name.getLast? != some '*' &&
   destinations (.str (joinStr [' '] t.destinations)) == t.destinations &&
